@@ -20,7 +20,7 @@ import dlib  # noqa: E402
 
 warnings.simplefilter("ignore")
 
-from traits.api import (Any, Array, ComparisonMode, TraitType, UUID, Dict, HasTraits, Int, List, Set, Tuple, Union, Undefined,  # noqa: E402
+from traits.api import (Any, Array, ComparisonMode, Enum, Range, TraitType, UUID, Dict, HasTraits, Int, List, Set, Tuple, Union, Undefined,  # noqa: E402
                         Uninitialized)
 from traits.trait_notifiers import StaticTraitChangeNotifyWrapper  # noqa: E402
 from traits.trait_list_object import TraitListObject  # noqa: E402
@@ -132,6 +132,8 @@ class World:
             return [-1000]
         if type(v) is int:
             return [v]
+        if type(v) is float:
+            return [int(round(v * 10))]       # a float scalar is shown in tenths (3.5 -> 35; an int 3 stays 3)
         if isinstance(v, numpy.ndarray):
             return [int(x) for x in v.tolist()]
         if isinstance(v, uuid.UUID):
@@ -154,6 +156,8 @@ class World:
     def value(self, v):
         if type(v) is int:
             return {"shape": 0, "parts": [[0, [v]]]}
+        if type(v) is float:
+            return {"shape": 0, "parts": [[0, self.content(v)]]}
         if isinstance(v, numpy.ndarray):
             return {"shape": 8, "parts": [[self.oid(v), self.content(v)]]}
         if isinstance(v, uuid.UUID):
@@ -208,7 +212,20 @@ class World:
             md = {}
             if t.get("cmp", "equality") != "equality":
                 md["comparison_mode"] = getattr(ComparisonMode, t["cmp"])
-            if k == "KConst":
+            if t.get("dyn_range"):
+                # a dynamic range: bounds and default are read by name from the object; Base has int bounds and default
+                # c, Sub float bounds and default c + 0.5 (so the value type differs between instances)
+                ns["lo%d" % n], ns["hi%d" % n], ns["start%d" % n] = 0, 100, c[0]
+                ns[a] = Range(low="lo%d" % n, high="hi%d" % n, value="start%d" % n)
+            elif t.get("dyn_enum"):
+                # a dynamic enumeration: the legal values are read by name from the object; without a default method
+                # the default is the first legal value, with one (counted) it is what the method returns
+                vals = [c[0], c[0] + 1, c[0] + 2] if k == "KConst" else [c[0] + 1, c[0], c[0] + 2]
+                ns["choices%d" % n] = List(Int, vals)
+                ns[a] = Enum(values="choices%d" % n, **md)
+                if k == "KMethodInt":
+                    ns["_%s_default" % a] = counted_int_method(n, c)
+            elif k == "KConst":
                 ns[a] = Int(c[0], **md)
             elif k == "KListCopy" and t.get("inferred"):
                 ns[a] = InferredDefault(list(c), **md)
@@ -279,6 +296,10 @@ class World:
                 ns2["_%s_default" % a] = counted_method(o["name"], o["content"])
             else:
                 raise ValueError(o["how"])
+        for t in self.case["traits"]:
+            if t.get("dyn_range"):
+                n = t["name"]
+                ns2["lo%d" % n], ns2["hi%d" % n], ns2["start%d" % n] = 0.0, 100.0, t["content"][0] + 0.5
         sub = type(HasTraits)("Sub", (base,), ns2)
         return [base, sub]
 
@@ -290,6 +311,8 @@ class World:
             return int(s[1:-6]) + 1000
         if s.startswith("t") and s[1:].isdigit():
             return int(s[1:])
+        if s.startswith("_traits_cache_t") and s[15:].isdigit():
+            return int(s[15:])          # the stored state of a property-like (dynamic) trait
         return 999
 
     def tdef(self, ct, n, cls_index, shadow_kind=None):
@@ -306,7 +329,9 @@ class World:
         dvt, dv = ct.default_value()
         declared = self.cfg.get(n)
         over = self.sub.get(n) if cls_index == 1 else None
-        if dvt == 0:
+        if dvt == 0 and declared is not None and declared.get("dyn_enum") and shadow_kind is None:
+            t["kind"], t["content"] = "KConst", list(declared["content"])     # (default: the first legal value)
+        elif dvt == 0:
             t["kind"] = "KConst"
             t["content"] = [dv] if type(dv) is int else [-999]
         elif dvt in (3, 5):
@@ -330,7 +355,10 @@ class World:
             t["content"] = list(declared["content"])       # what the callable returns is configuration, echoed
         elif dvt == 8 and declared is not None and shadow_kind is None:
             q = getattr(getattr(dv, "__func__", dv), "__qualname__", "")
-            if q == "BaseTuple._get_default_value":
+            if q == "BaseRange._get_default_value" and declared.get("dyn_range"):
+                c0 = declared["content"][0]
+                t["kind"], t["content"] = "KConst", ([c0] if cls_index == 0 else [10 * c0 + 5])    # (echoed bounds)
+            elif q == "BaseTuple._get_default_value":
                 t["kind"], t["content"], t["scalar"] = declared["kind"], list(declared["content"]), declared["scalar"]
             elif q == "Union._get_default_value":
                 t["kind"], t["content"] = "KUnion", list(declared["content"])
@@ -384,6 +412,8 @@ class World:
         for k, v in obj.__dict__.items():
             c = self.name_code(k)
             if c != 999:
+                if k.startswith("_traits_cache_"):
+                    v = getattr(obj, "t%d" % c)     # what the stored state reads as (a pure read once the entry exists)
                 d.append([c, self.value(v)])
         its = []
         for k, ct in obj._instance_traits().items():
